@@ -22,6 +22,9 @@ Record c01_case := {
   k_entry : str;                 (* template to render; for MComponent the component's source template *)
   k_mode : c01_mode;
   k_ctx : ctx;
+  (* the same program compiled with Chunk::optimize switched off (hook H2), when the harness sends it *)
+  k_noopt : option (list (str * template) * list (str * (comp_def * list instr)));
+  k_esc : esc_kind;              (* the escape function installed with Tera::set_escape_fn *)
   k_safe : bool;                 (* the program may use the safe filter *)
   k_strict : bool;               (* literal text special-free, every template autoescaped, no safe *)
   k_impl : res str }.
@@ -59,8 +62,12 @@ Definition run_case (wd : world) (c : c01_case) : res str :=
       end
   end.
 
+Definition with_program (c : c01_case) (p : list (str * template) * list (str * (comp_def * list instr))) : c01_case :=
+  {| k_templates := fst p; k_components := snd p; k_entry := k_entry c; k_mode := k_mode c; k_ctx := k_ctx c;
+     k_noopt := None; k_esc := k_esc c; k_safe := k_safe c; k_strict := k_strict c; k_impl := k_impl c |}.
+
 Definition world_of (c : c01_case) : world :=
-  world1 (k_safe c) fp_placeholder (k_templates c) (k_components c).
+  with_escape (world1 (k_safe c) fp_placeholder (k_templates c) (k_components c)) (escape_of (k_esc c)).
 
 Definition model_c01 (c : c01_case) : res str := run_case (world_of c) c.
 
@@ -77,6 +84,11 @@ Definition check_c01 (c : c01_case) : bool :=
   let m := model_c01 c in
   res_eqb str_eqb m (k_impl c)
   && bodies_ok c
+  (* the optimiser does not change what is written, whatever the escape function *)
+  && match k_noopt c with
+     | Some p => res_eqb str_eqb (run_case (world_of (with_program c p)) (with_program c p)) m
+     | None => true
+     end
   && (if k_strict c
       then hyps_ok c && match m with ROk out => clean ok_html out | RErr _ => true end
       else true).
